@@ -180,6 +180,37 @@ def main():
         else:
             ck.nontrivial('lit' + s)
 
+    # ---------------- stream 2b: character literals (every escape form) ------------------
+    chars = []
+    for ch in range(32, 127):
+        if chr(ch) not in "'\\":
+            chars.append(("'%s'" % chr(ch), ch))
+    for esc, v in (('n', 10), ('t', 9), ('r', 13), ('a', 7), ('b', 8), ('f', 12), ('v', 11), ('\\', 92), ("'", 39), ('"', 34), ('?', 63), ('0', 0)):
+        chars.append(("'\\%s'" % esc, v))
+    octs = list(range(256)) if ck.tier == 'thorough' else sorted(set([0, 1, 7, 8, 15, 55, 63, 64, 127, 128, 255, 0o177, 0o007, 0o017, 0o107, 0o377] + [rng.randrange(256) for _ in range(60)]))
+    for v in octs:
+        sv = v - 256 if v >= 128 else v
+        chars.append(("'\\%03o'" % v, sv))
+        if v < 64:
+            chars.append(("'\\%o'" % v, sv))
+        chars.append(("'\\x%x'" % v, sv))
+        chars.append(("'\\x%02X'" % v, sv))
+    rc, impl_out, err = run_parse_file(b, wd, [c for c, v in chars])
+    gx = []
+    for (c, v), io in zip(chars, impl_out):
+        ck.count()
+        ck.dist('charlit')
+        gx.append((c, v))
+        got = io.get('value')
+        if got != str(v):
+            kind = 'oct' if c[2:3].isdigit() and c[1] == '\\' else 'hex' if c[1:3] == '\\x' else 'simple-escape' if c[1] == '\\' else 'plain'
+            ck.spec_failure('charlit:' + kind, 'character literal %s has value %d, interrogate reports %s' % (c, v, got),
+                            {'kind': 'spec', 'stdin': c, 'header': HEADER, 'cmd': 'parse_file -p e.h', 'expected': v, 'got': got})
+        else:
+            ck.nontrivial('chr' + c)
+    ck.cov['streams']['char_literals'] = len(chars)
+    ck.cov['streams']['gxx_validated_char_literals'] = gxx_validate(ck, wd, gx)
+
     # ---------------- stream 3: end to end through the database ------------------------
     nhdr = ck.scale(25, 300)
     n_enum = 0
@@ -187,8 +218,13 @@ def main():
         inits = []
         k = rng.randrange(2, 8)
         for j in range(k):
-            if rng.random() < 0.45:
+            r0 = rng.random()
+            if r0 < 0.45:
                 inits.append(None)
+            elif r0 < 0.65:
+                # the shapes CPPEnumType::add_element special-cases for the next implicit enumerator: literal, X op literal
+                lhs = ('ref', rng.randrange(j)) if j and rng.random() < 0.7 else ('lit', rng.choice([0, 3, 100]))
+                inits.append(('bin', rng.choice(['add', 'sub', 'mul', 'or', 'shl', 'xor']), lhs, ('lit', rng.choice([0, 1, 2, 3, 7]))))
             else:
                 inits.append(X.gen(rng, rng.choice([1, 2, 3]), nrefs=j, lits=[0, 1, 2, 3, 5, 8, 100, 65536]))
         en = ['V%d' % j for j in range(k)]
